@@ -47,23 +47,83 @@ def _is_self_attr(e, names):
 
 
 def gf_accessor_modes(gfsrc):
-    """GFCrystalcalc.Diffusivity()/biascorrection() without argument: 'attr' if they return the stored attribute
-    itself, 'fresh' if they return a copy"""
+    """GFCrystalcalc.Diffusivity()/biascorrection():
+       noarg   : 'attr' if the call without argument returns the stored attribute itself, 'fresh' if a copy;
+       compute : 'fresh' if the value computed in SetRates (call WITH argument) is a newly allocated array on every call,
+                 'reused' if it is (or may be) an existing buffer (self.<attr>, an argument, ...) filled in place.
+       SetRates must bind self.D / self.eta to exactly these calls."""
     tree = ast.parse(gfsrc)
     out = {}
-    for cls in [n for n in tree.body if isinstance(n, ast.ClassDef) and n.name == "GFCrystalcalc"]:
-        for fn in [n for n in cls.body if isinstance(n, ast.FunctionDef) and n.name in ("Diffusivity", "biascorrection")]:
-            attr = {"Diffusivity": "D", "biascorrection": "eta"}[fn.name]
-            mode = None
-            for r in [n for n in ast.walk(fn) if isinstance(n, ast.Return)]:
-                v = r.value
-                if _is_self_attr(v, (attr,)): mode = "attr"; break
-                if isinstance(v, ast.Call) and isinstance(v.func, ast.Attribute) and v.func.attr == "copy" and _is_self_attr(v.func.value, (attr,)):
-                    mode = mode or "fresh"
-            if mode is None: raise Unrecognised("GFCrystalcalc.%s: no `return self.%s[.copy()]` found" % (fn.name, attr))
-            out[fn.name] = mode
-    if set(out) != {"Diffusivity", "biascorrection"}: raise Unrecognised("GFCrystalcalc accessors not found")
+    clss = [n for n in tree.body if isinstance(n, ast.ClassDef) and n.name == "GFCrystalcalc"]
+    if len(clss) != 1: raise Unrecognised("class GFCrystalcalc not found")
+    fns = {n.name: n for n in clss[0].body if isinstance(n, ast.FunctionDef)}
+    for name, attr in (("Diffusivity", "D"), ("biascorrection", "eta")):
+        if name not in fns: raise Unrecognised("GFCrystalcalc.%s not found" % name)
+        fn = fns[name]
+        rets = []
+
+        def classify(e, env):
+            if isinstance(e, ast.Name): return env.get(e.id, ("unknown", e.id))
+            if isinstance(e, (ast.BinOp, ast.UnaryOp)): return ("fresh",)
+            if isinstance(e, ast.IfExp): return join(classify(e.body, env), classify(e.orelse, env))
+            if isinstance(e, ast.Attribute) and isinstance(e.value, ast.Name) and e.value.id == "self": return ("attr", e.attr)
+            if isinstance(e, ast.Call) and isinstance(e.func, ast.Attribute):
+                if e.func.attr == "copy": return ("fresh",)
+                if isinstance(e.func.value, ast.Name) and e.func.value.id == "np" and e.func.attr in (
+                        "zeros", "ones", "empty", "array", "eye", "zeros_like", "ones_like", "dot", "tensordot", "outer", "trace"):
+                    return ("fresh",)
+            return ("unknown", ast.dump(e)[:60])
+
+        def join(x, y):
+            for kind in ("attr", "unknown", "arg"):
+                for z in (x, y):
+                    if z is not None and z[0] == kind: return z
+            return x if x is not None else y
+
+        def block(stmts, env):
+            for st in stmts:
+                if isinstance(st, ast.Assign) and len(st.targets) == 1 and isinstance(st.targets[0], ast.Name):
+                    env[st.targets[0].id] = classify(st.value, env)
+                elif isinstance(st, ast.Assign):
+                    for t in st.targets:
+                        for n in ast.walk(t):
+                            if isinstance(n, ast.Name) and isinstance(n.ctx, ast.Store): env[n.id] = ("unknown", "complex assignment")
+                elif isinstance(st, ast.If):
+                    e1, e2 = dict(env), dict(env)
+                    block(st.body, e1); block(st.orelse, e2)
+                    for k in set(e1) | set(e2): env[k] = join(e1.get(k), e2.get(k))
+                elif isinstance(st, (ast.For, ast.While)):
+                    e1 = dict(env); block(st.body, e1)
+                    for k in set(e1) | set(env): env[k] = join(env.get(k), e1.get(k))
+                elif isinstance(st, ast.Return):
+                    rets.append(classify(st.value, env))
+                elif isinstance(st, (ast.AugAssign, ast.Expr, ast.Pass, ast.Assert, ast.Raise)):
+                    pass
+                else:
+                    raise Unrecognised("statement kind %s in GFCrystalcalc.%s" % (type(st).__name__, name))
+
+        block(fn.body, {a.arg: ("arg",) for a in fn.args.args})
+        noarg, compute = None, "fresh"
+        for r in rets:
+            if r == ("attr", attr): noarg = "attr"          # the accessor path
+            elif r[0] == "fresh": pass
+            else: compute = "reused"                       # attribute of another name, argument, unknown: fail closed
+        if noarg is None:
+            if not any(r[0] == "fresh" for r in rets): raise Unrecognised("GFCrystalcalc.%s: no recognisable return" % name)
+            noarg = "fresh"
+        out[name] = {"noarg": noarg, "compute": compute}
+        # SetRates binds the attribute to the computed value
+        ok = False
+        for st in ast.walk(fns["SetRates"]):
+            if isinstance(st, ast.Assign) and len(st.targets) == 1 and _is_self_attr(st.targets[0], (attr,)):
+                v = st.value
+                ok = isinstance(v, ast.Call) and isinstance(v.func, ast.Attribute) and v.func.attr == name and _is_self_attr_name(v.func.value)
+        if not ok: raise Unrecognised("SetRates does not bind self.%s = self.%s(...)" % (attr, name))
     return out
+
+
+def _is_self_attr_name(e):
+    return isinstance(e, ast.Name) and e.id == "self"
 
 
 def alias_analysis(src, gfsrc):
@@ -86,7 +146,7 @@ def alias_analysis(src, gfsrc):
             if f.attr == "copy": return ("fresh",)
             if isinstance(f.value, ast.Name) and f.value.id == "np": return ("fresh",)   # np.array / np.dot / np.zeros ...
             if f.attr in ("Diffusivity", "biascorrection") and _is_self_attr(f.value, ("GFcalc",)) and not e.args and not e.keywords:
-                return ("fresh",) if gfm[f.attr] == "fresh" else ("gfattr", f.attr)
+                return ("fresh",) if gfm[f.attr]["noarg"] == "fresh" else ("gfattr", f.attr)
         return ("unknown", ast.dump(e)[:80])
 
     def join(a, b):
@@ -112,9 +172,9 @@ def alias_analysis(src, gfsrc):
                     slot = CACHES[t.value.attr]
                     v = st.value
                     if isinstance(v, ast.Name):
-                        stores.append((slot, "same-object", v.id)); env[v.id] = ("alias", slot)
+                        stores.append((slot, "same-object", v.id, env.get(v.id, ("unknown",)))); env[v.id] = ("alias", slot)
                     elif isinstance(v, ast.Call) and isinstance(v.func, ast.Attribute) and v.func.attr == "copy":
-                        stores.append((slot, "copy", ast.unparse(v)))
+                        stores.append((slot, "copy", ast.unparse(v), ("fresh",)))
                     else:
                         raise Unrecognised("cache store of unrecognised value: " + ast.unparse(st))
                 # subscripted / attribute targets of other objects do not rebind names
@@ -154,7 +214,26 @@ def alias_analysis(src, gfsrc):
     for nm in ("generate", "GFcalculator"):
         if not any(isinstance(n, ast.Call) and isinstance(n.func, ast.Attribute) and n.func.attr == "clearcache" for n in ast.walk(names[nm])):
             raise Unrecognised("%s does not call clearcache" % nm)
-    return modes, stores, {"GFcalc": gfm}
+    # what a miss stores in each slot: a newly allocated array, or the GF calculator's reused buffer
+    smode = [None, None, None]
+    for slot, kind, what, origin in stores:
+        if kind == "copy" or origin[0] == "fresh": shared = False
+        elif origin[0] == "gfattr": shared = (gfm[origin[1]]["compute"] != "fresh")
+        else: raise Unrecognised("cache store of %s with unrecognised origin %s" % (what, origin))
+        smode[slot] = shared if smode[slot] is None else (smode[slot] or shared)
+    if any(x is None for x in smode): raise Unrecognised("not every cache slot is stored in Lij: %s" % smode)
+    return modes, smode, [st[:3] for st in stores], {"GFcalc": gfm}
+
+
+def dynamic_store_modes(d, argsA, argsB):
+    """run-time: do the cache entries of two different keys share memory (a reused buffer)?"""
+    d.clearcache()
+    d.Lij(*argsA); d.Lij(*argsB)
+    sm = []
+    for nm, slot in CACHES.items():
+        vals = list(getattr(d, nm).values())
+        sm.append(len(vals) == 2 and bool(np.shares_memory(vals[0], vals[1])))
+    return sm
 
 
 def dynamic_modes(d, args):
@@ -184,17 +263,19 @@ Import ListNotations.
    codes; a result computed from a corrupted GF/etav is a poison code. *)
 Definition cc (cf c : nat) : list nat := [1 + 10 * c + 1000 * cf; 2 + 10 * c + 1000 * cf; 3 + 10 * c + 1000 * cf].
 Definition cr (cf : nat) (k : nat * nat) (cont : list nat) : list nat :=
-  let ok := Nat.eqb (nth 0 cont 0) (nth 0 (cc cf (fst k)) 0) && Nat.eqb (nth 2 cont 0) (nth 2 (cc cf (fst k)) 0) in
-  let code j := if ok then 100000 + j + 10 * snd k + 1000 * fst k + 50000 * cf else 900000 + j in
-  [nth 1 cont 0; code 1; code 2; code 3].
+  let okg := Nat.eqb (nth 0 cont 0) (nth 0 (cc cf (fst k)) 0) in
+  let oke := Nat.eqb (nth 2 cont 0) (nth 2 (cc cf (fst k)) 0) in
+  let code (ok : bool) j := if ok then 100000 + j + 10 * snd k + 1000 * fst k + 50000 * cf else 900000 + j in
+  (* Lss, Lsv use the cached GF; L1vv uses GF and etav; L0vv is the cached array handed through *)
+  [nth 1 cont 0; code okg 1; code okg 2; code (okg && oke) 3].
 Definition OP := op nat (nat * nat) nat.
-Definition model_run (rm : list mode) (c0 : nat) (ops : list OP) :=
-  run nat 0 (nat * nat) nat nat fst Nat.eqb Nat.eqb cc cr rm (init nat nat nat c0) ops.
+Definition model_run (rm : list mode) (sm : list bool) (c0 : nat) (ops : list OP) :=
+  run nat 0 (nat * nat) nat nat fst Nat.eqb Nat.eqb cc cr rm sm (init nat nat nat c0) ops.
 Definition model_pure (rm : list mode) := pure nat 0 (nat * nat) nat nat fst cc cr rm.
 (* per Lij: which components equal the fresh value *)
-Definition verdicts (rm : list mode) (c0 : nat) (ops : list OP) : list (list bool) :=
+Definition verdicts (rm : list mode) (sm : list bool) (c0 : nat) (ops : list OP) : list (list bool) :=
   map (fun x => map (fun p => Nat.eqb (fst p) (snd p)) (combine (snd x) (model_pure rm (fst (fst x)) (snd (fst x)))))
-      (model_run rm c0 ops).
+      (model_run rm sm c0 ops).
 Fixpoint lb_eqb (a b : list bool) : bool :=
   match a, b with [] , [] => true | x :: a', y :: b' => Bool.eqb x y && lb_eqb a' b' | _, _ => false end.
 Fixpoint first_diff (i : nat) (a b : list (list bool)) : nat :=
@@ -204,9 +285,14 @@ Fixpoint first_diff (i : nat) (a b : list (list bool)) : nat :=
   | _, _ => 9999
   end.
 (* 0 = the implementation's verdicts are the model's ; i = first differing Lij call (1-based) *)
-Definition run_hist (c : list mode * nat * list OP * list (list bool)) : nat :=
-  let '(rm, c0, ops, impl) := c in first_diff 1 (verdicts rm c0 ops) impl.
+Definition run_hist (c : list mode * list bool * nat * list OP * list (list bool)) : nat :=
+  let '(rm, sm, c0, ops, impl) := c in first_diff 1 (verdicts rm sm c0 ops) impl.
+Definition lbool_eqb := lb_eqb.
 """
+
+
+def smode_term(sm):
+    return coq_list([coq_bool(b) for b in sm])
 
 
 def modes_term(modes):
@@ -282,7 +368,7 @@ def gen_history(rng, n, cfgs, with_regen):
     for _ in range(n):
         r = rng.random()
         if r < 0.5 or ncalls == 0:
-            ops.append(("lij", (rng.randrange(2), rng.randrange(2)), rng.random() < 0.25)); ncalls += 1
+            ops.append(("lij", (rng.randrange(3), rng.randrange(2)), rng.random() < 0.25)); ncalls += 1
         elif r < 0.72:
             ops.append(("mutate", rng.randrange(ncalls), rng.randrange(4), rng.choice(["fill", "add", "scale"])))
         elif r < 0.8:
@@ -292,11 +378,35 @@ def gen_history(rng, n, cfgs, with_regen):
             cur = rng.choice(cand); ops.append(("reconf", cur))
         else:
             ops.append(("saveload",))
-    if ops[-1][0] != "lij": ops.append(("lij", (rng.randrange(2), rng.randrange(2)), False))
+    if ops[-1][0] != "lij": ops.append(("lij", (rng.randrange(3), rng.randrange(2)), False))
     return ops
 
 
-def run_history(pool, cfgs, ops, tag):
+def aliasing_violations(d, held):
+    """(b) after an Lij: no two distinct cache entries share memory; at most one entry per slot is the GF calculator's
+    current D / eta object; no array ever returned to the caller shares memory with a cache entry or with D / eta"""
+    entries = [(nm, i, v) for nm in CACHES for i, v in enumerate(getattr(d, nm).values()) if isinstance(v, np.ndarray)]
+    bad = []
+    for a in range(len(entries)):
+        for b in range(a + 1, len(entries)):
+            if np.shares_memory(entries[a][2], entries[b][2]):
+                bad.append("cache entries %s[%d] and %s[%d] share memory" % (entries[a][0], entries[a][1], entries[b][0], entries[b][1]))
+    internals = [(nm, getattr(d.GFcalc, nm, None)) for nm in ("D", "eta")]
+    internals = [(nm, x) for nm, x in internals if isinstance(x, np.ndarray)]
+    for nm, x in internals:
+        n = sum(1 for e in entries if np.shares_memory(e[2], x))
+        if n > 1: bad.append("GFcalc.%s is shared by %d cache entries" % (nm, n))
+    for ci, res in enumerate(held):
+        for ri, r in enumerate(res):
+            if not isinstance(r, np.ndarray): continue
+            for e in entries:
+                if np.shares_memory(r, e[2]): bad.append("array %d returned by call %d shares memory with %s[%d]" % (ri, ci, e[0], e[1]))
+            for nm, x in internals:
+                if np.shares_memory(r, x): bad.append("array %d returned by call %d shares memory with GFcalc.%s" % (ri, ci, nm))
+    return bad
+
+
+def run_history(pool, cfgs, ops, tag, alias_log=None):
     """-> (verdicts per Lij [4 bools], worst diff, events, exception or None)"""
     d = pool.fresh(cfgs[0])
     cur = 0
@@ -325,6 +435,8 @@ def run_history(pool, cfgs, ops, tag):
                     v.append(bool(ok))
                 verdicts.append(v); info.append((n, cfg, o[1]))
                 held.append(res)
+                if alias_log is not None:
+                    for msg in aliasing_violations(d, held)[:3]: alias_log.append((n, msg))
             elif o[0] == "mutate":
                 arr = held[o[1]][o[2]]
                 if o[3] == "fill": arr[...] = 7.0
@@ -359,8 +471,9 @@ def run(ck):
     import onsager
     from onsager import OnsagerCalc
     V = Once(ck)
-    ck.rule = ("histories of 6-30 operations over pools of 4 inputs (2 vTK keys x 2 remaining data) per configuration "
-               "(Nthermo in {1,2} x NGFmax in {4,6}) on square and honeycomb calculators: Lij (25% through reused input buffers), "
+    ck.rule = ("histories of 6-30 operations over pools of 6 inputs per configuration "
+               "(Nthermo in {1,2} x NGFmax in {4,6}) on square, honeycomb and the polar 2-D cells rect-polar2d, oblique2d (non-zero bias "
+               "correction eta_v): Lij over 3 vTK keys x 2 other data (25% through reused input buffers), fixed A,B,A,C,B,A,C sequences, "
                "in-place edits (fill / += / *=) of any array returned by any earlier call, clearcache, re-generation, NGFmax "
                "change, HDF5 save+load; every Lij compared with a fresh calculator; distinct = distinct histories; non-trivial "
                "= contains an edit or a reconfiguration before a later Lij")
@@ -371,42 +484,50 @@ def run(ck):
     srcdir = os.path.dirname(onsager.__file__)
     ck.extra["source"] = srcdir
     # ---- 1. modes from the current source
-    static = None
+    static, static_sm = None, None
     try:
-        static, stores, facts = alias_analysis(open(os.path.join(srcdir, "OnsagerCalc.py")).read(), open(os.path.join(srcdir, "GFcalc.py")).read())
-        ck.extra["alias_analysis"] = {"modes": static, "stores": stores, **facts}
-        ck.note("alias analysis of Lij: returned arrays %s; cache stores %s; GFcalc accessors %s" % (static, stores, facts["GFcalc"]))
+        static, static_sm, stores, facts = alias_analysis(open(os.path.join(srcdir, "OnsagerCalc.py")).read(), open(os.path.join(srcdir, "GFcalc.py")).read())
+        ck.extra["alias_analysis"] = {"modes": static, "store_shares_buffer": static_sm, "stores": stores, **facts}
+        ck.note("alias analysis: returned arrays %s; a miss stores a reused buffer per slot %s; cache stores %s; GFcalc %s" % (static, static_sm, stores, facts["GFcalc"]))
     except (Unrecognised, SyntaxError, KeyError) as e:
         ck.obligations.append(("modes-derived-from-source", False, [str(e)]))
         ck.broken_proof = "alias analysis of VacancyMediated.Lij failed closed: %s" % e
     # ---- 2. dynamic validation
-    pools = {nm: Pool(nm, ck.nprng(i)) for i, nm in enumerate(["square", "honeycomb"])}
-    dyn = None
+    # square / honeycomb have eta_v = 0; the polar 2-D cells have a non-empty site vector basis (eta_v != 0), so that
+    # a wrong cached bias correction is visible in L1vv
+    pools = {nm: Pool(nm, ck.nprng(i)) for i, nm in enumerate(["square", "honeycomb", "rect-polar2d", "oblique2d"])}
+    dyn, dyn_sm = None, None
     for nm, pool in pools.items():
         d = pool.fresh((1, 4))
         m = dynamic_modes(d, pool.input((1, 4), (0, 0)))
         dyn = m if dyn is None or dyn == m else "inconsistent"
+        sm = dynamic_store_modes(d, pool.input((1, 4), (0, 0)), pool.input((1, 4), (1, 0)))
+        dyn_sm = sm if dyn_sm is None or dyn_sm == sm else "inconsistent"
         ck.case(key=("dynamic-modes", nm), nontrivial=True, kind="shares_memory")
     ck.extra["dynamic_modes"] = dyn
-    if static is not None:
-        ok = (dyn == static)
-        ck.obligations.append(("modes-derived-from-source", ok, [] if ok else ["static %s vs run-time %s" % (static, dyn)]))
+    ck.extra["dynamic_store_shares_buffer"] = dyn_sm
+        if static is not None:
+        ok = (dyn == static and dyn_sm == static_sm)
+        ck.obligations.append(("modes-derived-from-source", ok, [] if ok else ["static %s %s vs run-time %s %s" % (static, static_sm, dyn, dyn_sm)]))
         if not ok:
-            ck.broken_proof = "alias analysis (%s) does not match the run-time object graph (%s)" % (static, dyn)
+            ck.broken_proof = "alias analysis (%s, buffers %s) does not match the run-time object graph (%s, buffers %s)" % (static, static_sm, dyn, dyn_sm)
     modes = static if static is not None else (dyn if isinstance(dyn, list) else ["Fresh"] * 4)
+    smode = static_sm if static_sm is not None else (dyn_sm if isinstance(dyn_sm, list) else [False] * 3)
     # ---- 3. which theorem applies to these modes (decided in Coq)
     applies = None
     try:
-        out = ck.coq_cases("modes", "Eval vm_compute in (all_fresh %s, match %s with [Alias 1; Fresh; Fresh; Fresh] => true | _ => false end)."
-                           % (modes_term(modes), modes_term(modes)), IMPORTS)
-        m = re.search(r"\((true|false),\s*(true|false)\)", out)
+        out = ck.coq_cases("modes", "Eval vm_compute in (all_fresh %s && stores_fresh %s, "
+                           "match %s, %s with [Alias 1; Fresh; Fresh; Fresh], [false; false; false] => true | _, _ => false end, "
+                           "match %s, %s with [Fresh; Fresh; Fresh; Fresh], [false; false; true] => true | _, _ => false end)."
+                           % (modes_term(modes), smode_term(smode), modes_term(modes), smode_term(smode), modes_term(modes), smode_term(smode)), IMPORTS)
+        m = re.search(r"\((true|false),\s*(true|false),\s*(true|false)\)", out)
         if not m: raise CoqFailure("cannot parse " + out[:200])
-        allfresh, iscurrent = m.group(1) == "true", m.group(2) == "true"
-        applies = "C14_history" if allfresh else "C14_refuted" if iscurrent else "none"
+        allfresh, iscurrent, isbuffer = (m.group(i) == "true" for i in (1, 2, 3))
+        applies = "C14_history" if allfresh else "C14_refuted" if iscurrent else "C14_shared_buffer_refuted" if isbuffer else "none"
         ck.extra["theorem_applying_to_source_modes"] = applies
         ck.obligations.append(("premise-decided-for-source-modes", applies != "none", [applies]))
         if applies == "none":
-            ck.broken_proof = "derived modes %s are covered by neither C14_history nor C14_refuted" % modes
+            ck.broken_proof = "derived modes %s / store modes %s are covered by no theorem of Properties/C14.v" % (modes, smode)
     except CoqFailure as e:
         ck.broken_proof = "correspondence modes: %s" % e
     # ---- 4. witness replay  [Lij k; mutate (ret 0); Lij k]
@@ -432,6 +553,32 @@ def run(ck):
                 ck.broken_proof = "model says history independent for modes %s but the witness fails on the implementation" % modes
         elif applies == "C14_refuted":
             ck.broken_proof = "model predicts the alias witness to fail for modes %s but the implementation passes it" % modes
+    # ---- 4b. witness replay  [Lij a; Lij b; Lij a]  (different vacancy data; the third call is a cache hit)
+    for nm, pool in pools.items():
+        for N in (1, 2):
+            d = pool.fresh((N, 4))
+            alog = []
+            seq = [(0, 0), (1, 0), (0, 0), (2, 1), (1, 1), (0, 1), (2, 0)]
+            held = []
+            for step, kid in enumerate(seq):
+                res = d.Lij(*pool.input((N, 4), kid)); held.append(res)
+                ref = pool.reference((N, 4), kid)
+                diffs = [float(np.abs(np.asarray(x) - y).max()) for x, y in zip(res, ref)]
+                for msg in aliasing_violations(d, held)[:2]: alog.append((step, msg))
+                ck.case(key=("aba", nm, N, step), nontrivial=step >= 2, kind="ABA:" + nm)
+                if max(diffs) > TOL * max(1.0, max(float(np.abs(y).max()) for y in ref)):
+                    V("a cache hit after other vacancy data were evaluated returns different coefficients than a fresh calculator "
+                      "(call %d of the sequence %s; max |diff| per array %s)" % (step, seq[:step + 1], diffs),
+                      {"calculator": nm, "crystal": repr(pool.crys), "cutoff": pool.cut, "Nthermo": N, "sequence(vTK id, other id)": seq[:step + 1],
+                       "inputs": {str(k): [x.tolist() for x in pool.input((N, 4), k)] for k in set(seq[:step + 1])}, "diffs": diffs,
+                       "aliasing": alog[:4], "store_shares_buffer": {"static": static_sm, "run-time": dyn_sm}, "model": applies},
+                      key="c14-cache-hit-after-other-keys")
+                    if applies == "C14_history":
+                        ck.broken_proof = "model says history independent but the A,B,A witness fails on the implementation"
+                    break
+            if alog:
+                V("cache entries alias each other / the GF calculator's buffers / returned arrays: %s" % alog[0][1],
+                  {"calculator": nm, "Nthermo": N, "events": alog[:6]}, key="c14-cache-aliasing")
     # ---- 5. re-generation probe
     regen_broken = False
     for nm, pool in pools.items():
@@ -464,8 +611,12 @@ def run(ck):
         nm = rng.choice(list(pools))
         with_regen = (h % 2 == 0)
         ops = gen_history(rng, rng.randint(6, ck.n(16, 30)), cfgs, with_regen)
-        verd, w, info, exc = run_history(pools[nm], cfgs, ops, "%s%d" % (nm, h))
+        alog = []
+        verd, w, info, exc = run_history(pools[nm], cfgs, ops, "%s%d" % (nm, h), alias_log=alog)
         worst = max(worst, w)
+        if alog and applies == "C14_history":
+            V("cache entries alias each other / the GF calculator's buffers / returned arrays: %s" % alog[0][1],
+              {"calculator": nm, "ops": [" ".join(map(str, o)) for o in ops], "events": alog[:6]}, key="c14-cache-aliasing")
         hist.append((nm, ops, verd, info, exc, with_regen))
         nontriv = any(o[0] in ("mutate", "reconf", "saveload") for o in ops[:-1])
         ck.case(key=("hist", nm, [list(map(str, o)) for o in ops]), nontrivial=nontriv,
@@ -475,7 +626,7 @@ def run(ck):
     terms, idx = [], []
     for i, (nm, ops, verd, info, exc, wr) in enumerate(hist):
         if exc is None:
-            terms.append("(%s, 0%%nat, %s, %s)" % (modes_term(modes), ops_term(ops), coq_list([coq_list([coq_bool(b) for b in v]) for v in verd])))
+            terms.append("(%s, %s, 0%%nat, %s, %s)" % (modes_term(modes), smode_term(smode), ops_term(ops), coq_list([coq_list([coq_bool(b) for b in v]) for v in verd])))
             idx.append(i)
     try:
         codes = run_nat_cases(ck, "hist", IMPORTS, "run_hist", terms, chunk=40)
@@ -501,8 +652,9 @@ def run(ck):
         if cde == 0:
             # implementation == model; a corrupted result that the model (with the source's modes) also predicts
             if not allok:
-                V("history changes Lij results exactly as the cache model with the source's alias modes %s predicts (first bad call: %s)"
-                  % (modes, next(j for j, v in enumerate(verd) if not all(v))), rep, key="c14-alias-L0vv")
+                V("history changes Lij results exactly as the cache model with the source's alias modes %s / store modes %s predicts (first bad call: %s)"
+                  % (modes, smode, next(j for j, v in enumerate(verd) if not all(v))), rep,
+                  key="c14-alias-L0vv" if applies == "C14_refuted" else "c14-cache-hit-after-other-keys")
         else:
             if regen_seen:
                 V("after re-generation the results of a history differ from a fresh calculator (call %d)" % cde, {**rep, "first_differing_call": cde},
